@@ -652,7 +652,12 @@ def run_case(case, refs=None):
     pkgdir = os.path.dirname(sys.modules['cvxopt'].__file__)
     nthreads = len(clients)
     policy = make_policy(case, nthreads)
-    sch = S.Sched(pkgdir, policy)
+    # the global cap is a guard against a hang, not a budget: it grows with the number of solver calls in the
+    # run, re-entrant ones included (a run of nine cpl calls with the relative criterion switched off, each
+    # starting three inner solves, legitimately needs more than the old fixed 600 000 yield points)
+    ncalls_ = sum(1 + (len(insts[o_[1]]['nested']['at']) if insts[o_[1]].get('nested') else 0)
+                  for ops_ in clients for o_ in ops_ if o_[0] == 'solve')
+    sch = S.Sched(pkgdir, policy, cap=max(600000, 250000 * ncalls_))
     solvers.options.clear()
     gmodel = {}
     gops = []     # global-option operations in executed order
